@@ -111,9 +111,13 @@ def build_env(spec, d, N, dt=None, name=None, description=None):
 # ---- control operations ----------------------------------------------------
 
 @st.composite
-def control_op_spec(draw, d):
+def control_op_spec(draw, d, invertible=False):
+    """invertible=True: the non-trace-preserving multiplications use 1 + a/8 (never annihilate a state; a chain whose
+    state has been mapped to exactly zero cannot be truncated and is outside the sensible input domain)"""
     kind = draw(st.sampled_from(["unitary", "dephase", "damp", "left", "right", "leftright", "identity"]))
     spec = {"kind": kind}
+    if invertible and kind in ("left", "right", "leftright"):
+        spec["shift"] = True
     if kind == "unitary":
         spec["u"] = draw(gens.unitary_spec(d, allow_identity=False))
     elif kind in ("dephase", "damp"):
@@ -154,9 +158,13 @@ def build_control_op(spec, d):
             S += np.kron(K, K.conj())
         return S
     a = gens.to_c(spec["a"])
+    if spec.get("shift"):
+        a = np.eye(d) + a / 8.0
     if k == "left":
         return np.kron(a, I).astype(complex)
     if k == "right":
         return np.kron(I, a.T).astype(complex)
     b = gens.to_c(spec["b"])
+    if spec.get("shift"):
+        b = np.eye(d) + b / 8.0
     return np.kron(a, b.T).astype(complex)
